@@ -136,6 +136,32 @@ def run(tier: str) -> int:
                     n_window += 1
                     events.append({"tid": len(events), "kind": "window", "over": has_over, "ord": has_ord, "frames": frames, "st": st, "ids": ids})
                     meta.append(("window", {"function": fn_name, "over": has_over, "orderby": has_ord, "frames": frames}))
+    # 1a3. GROUP BY modifiers (PT_Meta!GroupStep / GroupRender): every history of MC_Group on three dialect builders
+    rg = tlc.run("MC_Group", f"CONSTANT MaxCalls = {4 if tier == 'quick' else 5}\nINIT Init\nNEXT Next\nINVARIANT FoldAgrees\nINVARIANT Lost\nINVARIANT Mods\nINVARIANT Brackets\nINVARIANT Emit\n",
+                 workers=8, heap="4g", timeout=1500)
+    rep.add_tlc(rg)
+    if rg.violation or not rg.ok:
+        raise core.MachineryError(f"MC_Group: {rg.violation} (spec bug)\n{rg.raw_tail[-1200:]}")
+    n_group = 0
+    qcs_g = core.query_classes()
+    for d in ("generic", "mysql", "postgresql"):
+        for h in rg.json_tagged("G"):
+            tg = P.Table("t1")
+            q = qcs_g[d].from_(tg).select(tg.x)
+            st, ids = "ok", []
+            try:
+                for c in h["hist"]:
+                    cols = [getattr(tg, n) for n in c["cols"]]
+                    q = q.groupby(*cols) if c["m"] == "groupby" else q.with_totals() if c["m"] == "totals" else \
+                        q.rollup(*cols, **({"vendor": "mysql"} if c["m"] == "rollupM" else {}))
+                toks = lexer.lex(str(q), core.lex_dialect(d))
+                start = next((k for k, tk in enumerate(toks) if tk["t"] == "word" and tk["v"] == "GROUP" and tk["d"] == 0), None)
+                ids = [] if start is None else [tk["v"] for tk in toks[start:]]
+            except Exception as ex:  # noqa
+                st, ids = type(ex).__name__, []
+            n_group += 1
+            events.append({"tid": len(events), "kind": "group", "hist": h["hist"], "st": st, "ids": ids})
+            meta.append(("group", {"dialect": d, "calls": h["hist"]}))
     # 1b. render paths: every catalogue statement (seed, and seed + one call) through str / repr / get_sql() / get_sql(class context)
     import hashlib
 
@@ -170,7 +196,10 @@ def run(tier: str) -> int:
         for v in res.json_tagged("V"):
             kind, what = meta[v["tid"]]
             e = events[v["tid"]]
-            if kind == "window":
+            if kind == "group":
+                rep.discrepancy([["group-by", what["dialect"]] + [c["m"] + ":" + str(len(c["cols"])) for c in what["calls"]]], dict(what, recorded_outcome=v["want"], observed=e["st"], tokens=e["ids"]),
+                                what="the GROUP BY clause differs from the recorded groupby / rollup / with_totals rules")
+            elif kind == "window":
                 rep.discrepancy([["window-frame", what["function"], what["over"], what["orderby"], len(what["frames"])]], dict(what, recorded_outcome=v["want"], observed=e["st"], tokens=e["ids"]),
                                 what="the window clause differs from the recorded frame rule")
             elif kind == "custom":
@@ -264,7 +293,7 @@ def run(tier: str) -> int:
     rep.traces = len(events) + n_mut + len(sel_events)
     rep.evaluations = rep.traces
     rep.distinct = {json.dumps(m[1], sort_keys=True) for m in meta}
-    rep.extra.update({"select_list_programs": len(sel_events), "render_path_statements": n_paths, "window_frame_calls": n_window, "is_aggregate_trees": len(trees), "empty_criterion_folds": 2 * len(folds), "mutable_mode_chains": n_mut,
+    rep.extra.update({"select_list_programs": len(sel_events), "render_path_statements": n_paths, "window_frame_calls": n_window, "group_by_histories": n_group, "is_aggregate_trees": len(trees), "empty_criterion_folds": 2 * len(folds), "mutable_mode_chains": n_mut,
                       "mutable_model_states": rm.distinct})
     rep.sample({"tree": trees[0], "is_aggregate": events[0]["obs"]})
     rep.rule = ("behaviours outside the property list: is_aggregate of every tree of MC_Meta (depth <= 2 over leaves of every vote) vs PT_Meta!IsAgg; "
